@@ -109,8 +109,11 @@ def make_spec(seed, rng, k=None, mode=None, N=None, v=None):
                     'text': rng.choice(['..F. nested run %d\n' % k, './data/file%d\n' % k,
                                         '... done %d\n' % k, 'plain line %d\n' % k,
                                         '.hidden%d\n' % k])}))
-    if rng.random() < 0.25:
+    r_ = rng.random()
+    if r_ < 0.2:
         knobs['stdout_yields'] = True      # a slow parent stdout: flushes are scheduling points
+    elif r_ < 0.4:
+        knobs['stdout_stall'] = rng.choice([0.003, 0.05, 1.0])   # ... or block for a while
     if rng.random() < 0.25:
         knobs['cpus'] = rng.choice([1, 2])  # fewer CPUs than -j must not serialise the layers
     return {'property': ID, 'seed': seed, 'world': world, 'plan': _ws.order_plan(plan),
